@@ -34,7 +34,7 @@ def enc_val(x, depth=0):
     """Python value -> abstract value record."""
     import valida.datapath as vdp
 
-    if depth > 12:
+    if depth > 60:
         raise Unencodable("too deep")
     if x is None:
         return V("none")
